@@ -130,6 +130,31 @@ def run(ctx):
                 ctx.violation(R, f_c.short, cell + ",fresh",
                               "the complement shares Operation objects with "
                               "the receiver")
+    # alignments of other lengths: empty, one operation, two operations
+    for n_ops, code in itertools.product((0, 1, 2),
+                                         list(spec.CIGAR_COMPLEMENT)):
+        if n_ops == 0 and code != "M":
+            continue
+        ctx.instance(R)
+        ops = [Abs(OP, label="op%d" % i, length=i + 1, code=code)
+               for i in range(n_ops)]
+        out = eval_function(repo, f_c, [CigarList(ops)], hooks=hooks)
+        res = out[1]
+        want = [(i + 1, spec.CIGAR_COMPLEMENT[code])
+                for i in reversed(range(n_ops))]
+        got = [(o.attrs["length"], o.attrs["code"]) for o in res] \
+            if out[0] == "return" and isinstance(res, list) and all(
+                isinstance(o, Abs) for o in res) else res
+        ok = got == want and not any(o is i for o in (
+            res if isinstance(res, list) else []) for i in ops)
+        ctx.oblige(ok)
+        if not ok:
+            ctx.violation(R, f_c.short, "operations=%d,code=%s" % (n_ops, code),
+                          "complement of %s is %r, the specification says %r "
+                          "(as new Operation objects)" % (
+                              "".join("%d%s" % (i + 1, code)
+                                      for i in range(n_ops)) or "''",
+                              got, want))
     for code in spec.CIGAR_CODES_CLAIM:
         ctx.instance(R)
         ok = comp_map.get(comp_map.get(code)) == code
